@@ -526,7 +526,58 @@ class World:
                         here.add(r)
             out = here if out is None else (out & here)
         memo[key] = out or set()
+        if memo[key]:
+            # a solution of fn computed while this was in progress (recursion guard: empty entry facts) is stale
+            ef = self._ecfg.get(id(fn))
+            if ef is not None and ef._in is not None:
+                ef._in = None
+            self._summ.pop(id(fn), None)
+            self.__dict__.setdefault("_psumm", {}).pop(id(fn), None)
         return memo[key]
+
+    def param_summary(self, call, caller):
+        """facts about the by-value / const-reference parameters of a private helper (and fields) that hold whenever it returns
+        normally, rewritten to the caller's argument expressions: `_require_in_bounds(idx, ...)` returning means idx < _bound"""
+        g = self.resolve(call, caller)
+        if g is None or g.cfg is None or g.cls != caller.cls or g is caller or not g.params:
+            return set()
+        memo = self.__dict__.setdefault("_psumm", {})
+        key = id(g)
+        if key not in memo:
+            memo[key] = set()          # recursion guard
+            e = self.ecfg(g)
+            pnames = {p_["n"] for p_ in g.params if p_.get("n")}
+            modified = {root_var(x.get("lhs") or x.get("e")) for x in g.nodes()
+                        if (x.get("k") == "Assign" or (x.get("k") == "Un" and x.get("op") in ("++", "--")))}
+            out = None
+            for b in e.normal_exits():
+                fs = e.facts_at_end(b, e.exit) or set()
+                fs = {f for f in fs if f[4] and any(v in pnames for v in f[4]) and all(v.startswith("@") or (v in pnames and v not in modified) for v in f[4])}
+                out = fs if out is None else (out & fs)
+            memo[key] = out or set()
+        if not memo[key]:
+            return set()
+        bind = {}
+        ms = MODSETS.get(g.full) or set()
+        for prm, a in zip(g.params, call.get("a", [])):
+            if not prm.get("n"):
+                continue
+            t = (g.type(prm.get("t")) or "").strip()
+            if t.endswith("&") and not t.startswith("const "):
+                continue          # may be written through
+            va = vars_of(a)
+            if any(x.get("k") not in PURE_KINDS + ("Index", "OpCall") for x in walk_init(strip(a))):
+                continue
+            if any((m.rstrip("~") in va) or (m == "@*" and any(v.startswith("@") for v in va)) for m in ms):
+                continue          # the helper may change what the argument expression reads
+            bind[prm["n"]] = a
+        out = set()
+        for f in memo[key]:
+            if all(v.startswith("@") or v in bind for v in f[4]):
+                r = subst_fact(f, bind)
+                if r is not None:
+                    out.add(r)
+        return out
 
     def bind_helper_params(self):
         """a helper with exactly one call site whose argument is an expression over fields only: the parameter stands for that
@@ -548,6 +599,43 @@ class World:
 
 
 WORLD = [None]     # the World of the current run (callee summaries for the must-facts transfer)
+
+
+def subst_fact(f, bind):
+    """fact with the parameters `bind` (name -> argument expression node of the caller) replaced by those expressions"""
+    import copy as _copy
+    sides = []
+    for sname in (f[1], f[2]):
+        if sname is None or re.fullmatch(r"-?\d+", sname):
+            sides.append(sname)
+            continue
+        node = REG.get(sname)
+        if node is None:
+            return None
+        c = _copy.deepcopy(node)
+        if c.get("k") == "Ref" and c.get("n") in bind and "_init" not in c:
+            c = bind[c["n"]]
+        else:
+            for x in walk(c):
+                for key_, ch in list(x.items()):
+                    if isinstance(ch, dict) and ch.get("k") == "Ref" and ch.get("dk") in ("local", "param") and ch.get("n") in bind and "_init" not in ch:
+                        x[key_] = bind[ch["n"]]
+                    elif isinstance(ch, list):
+                        for i_, y in enumerate(ch):
+                            if isinstance(y, dict) and y.get("k") == "Ref" and y.get("dk") in ("local", "param") and y.get("n") in bind and "_init" not in y:
+                                ch[i_] = bind[y["n"]]
+        sides.append(norm(c))
+    A, B = sides
+    if f[0] == "==" and B is not None:
+        A, B = sorted((A, B))
+    vs, sv = set(), set(f[5])
+    for v in f[4]:
+        if v in bind:
+            vs |= vars_of(bind[v])
+            sv.discard(v)
+        else:
+            vs.add(v)
+    return (f[0], A, B, f[3], frozenset(vs), frozenset(sv))
 
 
 def rename_fact(f, ren):
@@ -767,7 +855,7 @@ class ECFG:
         if n.get("k") == "Call" and n.get("callee") == "FEAT::assertion" and n.get("a"):
             facts = set(facts) | set(atom_facts(n["a"][0], True))
         if n.get("k") == "MCall" and (n.get("obj") is None or strip(n["obj"]).get("k") == "This") and WORLD[0] is not None:
-            facts = set(facts) | WORLD[0].summary(n, self.fn)
+            facts = set(facts) | WORLD[0].summary(n, self.fn) | WORLD[0].param_summary(n, self.fn)
         if n.get("k") == "MCall" and n.get("callee") == "FEAT::Xml::MarkupParser::close":
             # the close() callback of the parser on top of a stack member: remembered until the stack itself changes
             o = n.get("obj")
@@ -925,6 +1013,14 @@ class ECFG:
         return sorted({self.throw_class(b) for b in self.reachable(s) if b in self.throws})
 
 
+def walk_init(n):
+    """walk that also descends into the initialiser a resolved local stands for (`_init`)"""
+    for x in walk(n):
+        yield x
+        if x.get("k") == "Ref" and "_init" in x:
+            yield from walk_init(x["_init"])
+
+
 def call_branch(e, call):
     """(block, successor taken when `call` returned true, successor when false) of the branch that tests the bool
     result of `call` (through !, == true/false, || / && operands), or None"""
@@ -934,7 +1030,7 @@ def call_branch(e, call):
         if br is None:
             continue
         leaf, t, fl = br
-        if not any(x is call or (x.get("i") is not None and x.get("i") == call.get("i") and x.get("k") == call.get("k")) for x in walk(leaf)):
+        if not any(x is call or (x.get("i") is not None and x.get("i") == call.get("i") and x.get("k") == call.get("k")) for x in walk_init(leaf)):
             continue
         for fa in atom_facts(leaf, True):
             if fa[0] == "b" and fa[1] == cs:
@@ -1078,6 +1174,11 @@ def this_counter(fn):
             out.append((strip(n["e"])["n"], n))
         elif n.get("k") == "Assign" and n.get("op") == "+=" and is_this_field(n["lhs"]) and norm(n["rhs"]) == "1":
             out.append((strip(n["lhs"])["n"], n))
+        elif n.get("k") == "Assign" and n.get("op") == "=" and is_this_field(n["lhs"]):
+            r = strip(n["rhs"])
+            fld = strip(n["lhs"])["n"]
+            if r is not None and r.get("k") == "Bin" and r["op"] == "+" and sorted((norm(r["lhs"]), norm(r["rhs"]))) == sorted((fld, "1")):
+                out.append((fld, n))           # x = x + 1
     return out
 
 
@@ -1398,6 +1499,12 @@ def rule_counter(ck, W, pcs):
                     probs.append("line %s: `%s` is reached with %s <= %s only: the rejection covers %s > %s, so one item more than declared is stored (%s == %s)" % (
                         u.get("l"), render(u)[:40], C, lim_, C, lim_, C, lim_))
                     continue
+                if not g and [f_ for f_ in fs if f_[0] == "==" and not f_[3] and C in (f_[1], f_[2])]:
+                    eqf = [f_ for f_ in fs if f_[0] == "==" and not f_[3] and C in (f_[1], f_[2])][0]
+                    lim_ = eqf[2] if eqf[1] == C else eqf[1]
+                    unk.append("line %s: `%s` is reached under `%s != %s` only (rejection for equality): that bounds the counter only under the invariant %s <= %s, "
+                               "which is not established by this rule" % (u.get("l"), render(u)[:40], C, lim_, C, lim_))
+                    continue
                 if not g:
                     sus = suspects(W, e, u, {"@" + C})
                     if sus:
@@ -1426,6 +1533,9 @@ def rule_counter(ck, W, pcs):
                 fs = ec.facts_at_end(b, ec.exit) or set()
                 g = find_fact(fs, "<", A=C, truth=False)
                 if not g:
+                    # `if(counter != limit) throw`: counter == limit at the exit, in particular not counter < limit
+                    g = [("<", C, (f_[2] if f_[1] == C else f_[1]), False, f_[4], f_[5]) for f_ in fs if f_[0] == "==" and f_[3] and C in (f_[1], f_[2])]
+                if not g:
                     sus = suspects(W, ec, None, {"@" + C}, anywhere=True)
                     if sus:
                         cunk.append("no `%s < <limit>` rejection seen in close(), but %s may perform it" % (C, sus))
@@ -1437,7 +1547,11 @@ def rule_counter(ck, W, pcs):
                 if limits and not (lim2 & limits):
                     cprobs.append("close() requires %s >= %s but content() guards with %s" % (C, sorted(lim2), sorted(limits)))
                 for fa in g:
-                    if guard_documented(W, ec, "<", C, fa[2], False) is False:
+                    gd = guard_documented(W, ec, "<", C, fa[2], False)
+                    if gd is None:
+                        a_, b_ = sorted((C, fa[2]))
+                        gd = guard_documented(W, ec, "==", a_, b_, True)
+                    if gd is False:
                         cprobs.append("the `%s < %s` edge of close() does not end in a documented Xml::*Error throw" % (C, fa[2]))
             results_t.append((pc, close, cprobs, cunk))
         if not results_g:
@@ -2067,7 +2181,19 @@ def passes_check(e, start, fact3, back_to):
             for fa in e.edge_facts(b, s):
                 if (fa[0], fa[1], fa[2], fa[3]) == fact3:
                     cut.add((b, s))
-    reach = e.reachable(start, cut_edges=cut)
+    # a call of a private helper whose normal return establishes the fact (`_require_in_bounds(idx, ...)`) is a crossing as well
+    cut_blocks = set()
+    if WORLD[0] is not None:
+        for b in e.el:
+            for sid in e.el[b]:
+                n = e.fn.by_id(sid)
+                if n is not None and n.get("k") == "MCall" and (n.get("obj") is None or strip(n["obj"]).get("k") == "This"):
+                    if any((fa[0], fa[1], fa[2], fa[3]) == fact3 for fa in WORLD[0].param_summary(n, e.fn)):
+                        cut_blocks.add(b)
+    cut_blocks.discard(back_to)       # (a call in front of the parse in its own block does not check the value parsed after it)
+    if start in cut_blocks:
+        return []
+    reach = e.reachable(start, cut_edges=cut, avoid=cut_blocks)
     bad = []
     if e.exit in reach:
         bad.append("the end of the function")
@@ -2198,16 +2324,72 @@ def rule_index_range(ck, W, facts):
 # -------------------------------------------------------------------------------------------------
 
 def attribs_table(fn):
-    """{name: mandatory} registered by an attribs() body and whether it returns true on all paths"""
+    """{name: mandatory} registered by an attribs() body and whether it returns true on all paths.  Registration forms:
+    emplace / try_emplace / insert_or_assign (K, B), insert(std::make_pair(K, B)) / insert(std::pair(K, B)) / insert({K, B}),
+    attrs[K] = B.  Any other use of the map (another mutator, handing it to a function) -> (None, None): not understood."""
     table = {}
+    mp = fn.params[0]["n"] if fn.params else None
+
+    def key_bool(k, v):
+        ks = norm(k)
+        sv = strip(v)
+        if ks.startswith('"') and sv is not None and sv.get("k") == "Bool":
+            table[ks.strip('"')] = bool(sv["v"])
+            return True
+        return False
+
+    def pair_of(x):
+        """(key node, value node) of a std::pair construction / std::make_pair call / braced pair"""
+        x = strip(x)
+        for _ in range(4):
+            if x is None:
+                return None
+            if x.get("k") == "Call" and x.get("callee") in ("std::make_pair",) and len(x.get("a", [])) == 2:
+                return x["a"][0], x["a"][1]
+            if x.get("k") in ("Construct", "TempObj") and re.match(r"std::pair<", x.get("ccls") or "") and len(x.get("a", [])) == 2:
+                return x["a"][0], x["a"][1]
+            if x.get("k") == "InitList" and len(x.get("a") or x.get("e") or x.get("s") or []) == 2:
+                it = x.get("a") or x.get("e") or x.get("s")
+                return it[0], it[1]
+            if x.get("k") in ("Construct", "TempObj") and len(x.get("a", [])) == 1:
+                x = strip(x["a"][0])        # converting / copy construction of the pair
+                continue
+            return None
+        return None
+    handled = set()
     for n in fn.nodes():
-        if n.get("k") == "MCall" and n.get("n") in ("emplace", "insert") and len(n.get("a", [])) == 2:
-            k, v = strip(n["a"][0]), strip(n["a"][1])
-            ks = norm(k)
-            if ks.startswith('"') and v.get("k") == "Bool":
-                table[ks.strip('"')] = bool(v["v"])
-            else:
+        k = n.get("k")
+        if k == "MCall" and root_var(n.get("obj")) == mp and mp is not None and strip(n.get("obj")).get("k") == "Ref":
+            nm, args = n.get("n"), n.get("a", [])
+            if nm in ("emplace", "try_emplace", "insert_or_assign") and len(args) == 2 and key_bool(args[0], args[1]):
+                handled.add(id(strip(n["obj"])))
+                continue
+            if nm == "insert" and len(args) == 2 and key_bool(args[0], args[1]):
+                handled.add(id(strip(n["obj"])))
+                continue
+            if nm == "insert" and len(args) == 1:
+                pr = pair_of(args[0])
+                if pr is not None and key_bool(pr[0], pr[1]):
+                    handled.add(id(strip(n["obj"])))
+                    continue
+            if n.get("cconst") or nm in ("size", "empty", "find", "count", "begin", "end", "cbegin", "cend"):
+                handled.add(id(strip(n["obj"])))
+                continue
+            return None, None
+        # attrs[K] = B
+        if (k == "Assign" and n.get("op") == "=") or (k == "OpCall" and n.get("op") == "=" and len(n.get("a", [])) == 2):
+            lhs, rhs = (n["lhs"], n["rhs"]) if k == "Assign" else (n["a"][0], n["a"][1])
+            sl = strip(lhs)
+            if sl is not None and sl.get("k") == "OpCall" and sl.get("op") == "[]" and len(sl.get("a", [])) == 2 and strip(sl["a"][0]).get("k") == "Ref" \
+               and strip(sl["a"][0]).get("n") == mp:
+                if key_bool(sl["a"][1], rhs):
+                    handled.add(id(strip(sl["a"][0])))
+                    continue
                 return None, None
+    # every other mention of the map (argument of a call, alias, iterator loops that insert ...) is not understood
+    for n in fn.nodes():
+        if n.get("k") == "Ref" and n.get("n") == mp and n.get("dk") == "param" and id(n) not in handled:
+            return None, None
     rets = [strip(n.get("e")) for n in fn.nodes() if n.get("k") == "Return"]
     checks = bool(rets) and all(r is not None and r.get("k") == "Bool" and r["v"] for r in rets)
     return table, checks
@@ -2229,7 +2411,7 @@ def rule_mandatory(ck, W, pcs, facts):
     for pc, table, checks, f, attrs in work:
         e = None
         for n in f.nodes():
-            if not (n.get("k") == "MCall" and n.get("n") == "find" and strip(n.get("obj")) is not None
+            if not (n.get("k") == "MCall" and n.get("n") in ("find", "at") and strip(n.get("obj")) is not None
                     and strip(n["obj"]).get("k") == "Ref" and strip(n["obj"]).get("n") == attrs and n.get("a")):
                 continue
             K = norm(n["a"][0]).strip('"')
@@ -2244,9 +2426,12 @@ def rule_mandatory(ck, W, pcs, facts):
             p = par.get(id(n))
             while p is not None and p.get("k") == "Cast":
                 p = par.get(id(p))
-            # direct dereference: find(K)->second
+            # direct dereference: find(K)->second ; attrs.at(K) is the look-up and the dereference in one (std::out_of_range, which is
+            # not a documented rejection, if K is absent)
             derefs = []
-            if p is not None and p.get("k") == "OpCall" and p.get("op") in ("->", "*"):
+            if n.get("n") == "at":
+                derefs.append((n, None))
+            elif p is not None and p.get("k") == "OpCall" and p.get("op") in ("->", "*"):
                 derefs.append((p, None))
             elif p is not None and p.get("k") == "Var":
                 it = p["n"]
@@ -2264,6 +2449,12 @@ def rule_mandatory(ck, W, pcs, facts):
                     endn = "%s.end()" % attrs
                     a, b = sorted((it, endn))
                     guarded = bool(find_fact(fs, "==", A=a, B=b, truth=False))
+                else:
+                    # the same look-up compared with end() on every path to this one (`if(attrs.find(K) != attrs.end()) ... attrs.at(K)`)
+                    fs = e.facts_at(d) or set()
+                    a, b = sorted(('%s.find("%s")' % (attrs, K), "%s.end()" % attrs))
+                    guarded = bool(find_fact(fs, "==", A=a, B=b, truth=False)) or \
+                        bool(find_fact(fs, "<", A="0", B='%s.count("%s")' % (attrs, K), truth=True)) or bool(find_fact(fs, "==", A="0", B='%s.count("%s")' % (attrs, K), truth=False))
                 if guarded:
                     continue
                 if not (table.get(K) and checks):
@@ -2794,6 +2985,13 @@ class Emitter:
                 v = subst[strip(a)["n"]]
             if v is not None:
                 sub[p["n"]] = v
+            else:
+                # a value handed through: inside the callee the parameter stands for the caller's expression
+                sa = strip(a)
+                if sa is not None and sa.get("k") == "Ref" and sa.get("dk") == "param" and ("\0val:" + sa["n"]) in subst:
+                    sa = subst["\0val:" + sa["n"]]
+                if sa is not None:
+                    sub["\0val:" + p["n"]] = sa
             if self._space_arg(f, a, subst):
                 sub["\0sp:" + p["n"]] = True
         out.append(("enter", g, cond))
@@ -2843,6 +3041,11 @@ class Emitter:
         s = strip(o)
         if v is None and s.get("k") == "Ref" and s.get("dk") == "param" and s["n"] in subst:
             v = subst[s["n"]]
+        blank_param = False
+        if v is None and s.get("k") == "Ref" and s.get("dk") == "param" and ("\0val:" + s["n"]) in subst:
+            blank_param = bool(subst.get("\0sp:" + s["n"]))
+            s = subst["\0val:" + s["n"]]
+            v = str_value(s)
         if v is None and s.get("k") == "Ref" and s.get("dk") == "local":
             # a local that names a literal and is never re-assigned (`const char* nl = "\n";`)
             init = local_init(f, s["n"])
@@ -2864,7 +3067,7 @@ class Emitter:
             if all(a is not None for a in alts):
                 out.append(("alt", alts, cond, (f, o)))
                 return
-        out.append(("val", s, cond, (f, o), self._space_arg(f, s, subst)))
+        out.append(("val", s, cond, (f, o), blank_param or self._space_arg(f, s, subst)))
 
 
 class Tag:
@@ -3644,10 +3847,18 @@ def rule_dim_binding(ck, W, facts):
         if not accs:
             continue
         if re.search(r"mesh_file_writer\.hpp$", f.file):
-            # own emissions only
+            # own emissions only (and those of helpers of the same class that emit for it without touching a set themselves)
             evs = []
             saved = em.targets
-            em.targets = lambda call: []
+
+            def own_helpers(call, f=f):
+                g = W.fns.get(call.get("cfull"))
+                if g is None or g is f or g.cls != f.cls or g.name == f.name:
+                    return []
+                if any(x.get("k") == "MCall" and x.get("n") in SET_ACCESSORS for x in g.nodes()):
+                    return []
+                return [g]
+            em.targets = own_helpers
             try:
                 em.events(f, out=evs)
             finally:
@@ -3897,6 +4108,36 @@ class CursorInterp:
                 self.loops.append(lp)
                 self.block(n.get("body"))
                 self.loops.pop()
+            elif k == "While":
+                # T i(0); while(i < n) { ...; ++i; }
+                c, body = strip(n.get("c")), n.get("body")
+                ok = c is not None and c.get("k") == "Bin" and c["op"] in ("<", "<=", "!=") and strip(c["lhs"]).get("k") == "Ref" \
+                    and body is not None and body.get("k") == "Block" and body.get("s")
+                if ok:
+                    iv = strip(c["lhs"])["n"]
+                    ok = self.val.get(iv) == 0 and _unit_step(body["s"][-1], iv) == 1 and not _modifies_local({"k": "Block", "s": body["s"][:-1]}, iv) \
+                        and not any(x.get("k") in ("Continue", "Break") for x in walk(body))
+                if not ok:
+                    self.unknown.append("loop at line %s not of the form `i = 0; while(i < n) { ...; ++i; }`" % n.get("l"))
+                    return
+                N = self.sym(c["rhs"])
+                self.val.pop(iv, None)
+                self.loops.append((iv, N + (1 if c["op"] == "<=" else 0)))
+                self.block({"k": "Block", "s": body["s"][:-1]})
+                self.loops.pop()
+                self.val[iv] = N
+            elif k in ("Do", "ForRange", "Switch", "Try"):
+                self.unknown.append("statement `%s` at line %s is not modelled" % (k, n.get("l")))
+            elif k == "Call" and n.get("callee") in ("std::copy", "std::copy_n") and len(n.get("a", [])) == 3:
+                self.copy_call(n)
+            elif k == "Un" and n.get("op") in ("++", "--") and strip(n["e"]).get("k") == "Ref" and strip(n["e"])["n"] in self.ptr:
+                self.unknown.append("line %s: cursor `%s` advanced by %s outside a modelled form" % (n.get("l"), strip(n["e"])["n"], n.get("op")))
+            elif k in ("Call", "MCall", "OpCall") and not (k == "Call" and n.get("callee") == "FEAT::assertion") \
+                    and not (k == "OpCall" and n.get("op") == "=" and len(n.get("a", [])) == 2):
+                # a call that receives the cursor / the buffer may read or write the payload in a way the layout comparison misses
+                names = {x.get("n") for x in walk(n) if x.get("k") == "Ref" and x.get("dk") in ("local", "param")}
+                if names & (set(self.ptr) | ({self.buffer} if self.buffer else set())) and not (k == "MCall" and n.get("n") in ("size", "data", "empty")):
+                    self.unknown.append("line %s: `%s` uses the cursor / buffer in a way that is not modelled" % (n.get("l"), render(n)[:60]))
             elif k == "Assign":
                 self.assign(n["lhs"], n["rhs"], n.get("op"), n)
             elif k == "OpCall" and n.get("op") == "=" and len(n.get("a", [])) == 2:
@@ -3913,6 +4154,44 @@ class CursorInterp:
         except Unknown as ex:
             self.unknown.append("line %s: %s" % (n.get("l"), ex))
 
+    def copy_call(self, n):
+        """std::copy(first, last, dest) / std::copy_n(first, count, dest) between a member container and the cursor"""
+        a0, a1, a2 = [strip(x) for x in n["a"]]
+
+        def whole(x, names):
+            return x.get("k") == "MCall" and x.get("n") in names and is_this_field(x.get("obj")) and not x.get("a")
+
+        def cursor(x):
+            """(pointer name, extra offset) of `p` / `p + k`"""
+            if x.get("k") == "Ref" and x["n"] in self.ptr:
+                return x["n"], self.sp.Integer(0)
+            if x.get("k") == "Bin" and x.get("op") == "+" and strip(x["lhs"]).get("k") == "Ref" and strip(x["lhs"])["n"] in self.ptr:
+                return strip(x["lhs"])["n"], self.sym(x["rhs"])
+            return None
+        if n.get("callee") == "std::copy" and whole(a0, ("begin", "cbegin")) and whole(a1, ("end", "cend")) and strip(a0["obj"])["n"] == strip(a1["obj"])["n"] and cursor(a2):
+            fld = strip(a0["obj"])["n"]
+            P, off = cursor(a2)
+            self.segs.append((self.ptr[P] + off, self.sym({"k": "MCall", "n": "size", "obj": a0["obj"], "a": []}), fld, n))
+            return
+        if whole(a2, ("begin",)) and cursor(a0):
+            fld = strip(a2["obj"])["n"]
+            P, off = cursor(a0)
+            if n.get("callee") == "std::copy_n":
+                ln = self.sym(n["a"][1])
+            else:
+                c1 = cursor(a1)
+                if c1 is None or c1[0] != P:
+                    raise Unknown("`%s`: range end is not the same cursor plus a length" % render(n)[:60])
+                ln = c1[1] - off
+            self.segs.append((self.ptr[P] + off, ln, fld, n))
+            return
+        if n.get("callee") == "std::copy_n" and whole(a0, ("begin", "cbegin")) and cursor(a2):
+            fld = strip(a0["obj"])["n"]
+            P, off = cursor(a2)
+            self.segs.append((self.ptr[P] + off, self.sym(n["a"][1]), fld, n))
+            return
+        raise Unknown("`%s` is not a copy between a whole member container and the cursor" % render(n)[:60])
+
     def loop_of(self, n):
         init, c, inc = n.get("init"), strip(n.get("c")), strip(n.get("inc"))
         if init is None or init.get("k") != "Decl" or len(init.get("vars", [])) != 1:
@@ -3920,9 +4199,9 @@ class CursorInterp:
         v = init["vars"][0]
         if strip(v.get("init")) is None or strip(v["init"]).get("k") != "Int" or strip(v["init"])["v"] != "0":
             return None
-        if c is None or c.get("k") != "Bin" or c["op"] not in ("<", "<=") or strip(c["lhs"]).get("k") != "Ref" or strip(c["lhs"])["n"] != v["n"]:
+        if c is None or c.get("k") != "Bin" or c["op"] not in ("<", "<=", "!=") or strip(c["lhs"]).get("k") != "Ref" or strip(c["lhs"])["n"] != v["n"]:
             return None
-        if inc is None or inc.get("k") != "Un" or inc.get("op") != "++":
+        if inc is None or _unit_step(inc, v["n"]) != 1:
             return None
         try:
             N = self.sym(c["rhs"])
@@ -3949,6 +4228,12 @@ class CursorInterp:
             if e.get("k") == "Index" and strip(e["b"]).get("k") == "Ref" and strip(e["b"])["n"] in self.ptr:
                 self.ptr[v["n"]] = self.ptr[strip(e["b"])["n"]] + self.sym(e["idx"])
                 return
+        if s.get("k") == "Bin" and s.get("op") == "+" and strip(s["lhs"]).get("k") == "Ref" and strip(s["lhs"])["n"] in self.ptr:
+            self.ptr[v["n"]] = self.ptr[strip(s["lhs"])["n"]] + self.sym(s["rhs"])          # p = q + k
+            return
+        if s.get("k") == "Ref" and s["n"] in self.ptr:
+            self.ptr[v["n"]] = self.ptr[s["n"]]
+            return
         if s.get("k") in ("Construct",) and "std::vector<char>" in (s.get("ccls") or s.get("callee") or ""):
             if s.get("a"):
                 self.bytes = self.sym(s["a"][0])
@@ -3967,6 +4252,12 @@ class CursorInterp:
         if op == "+=" and l.get("k") == "Ref" and l["n"] in self.ptr:
             self.ptr[l["n"]] = self.ptr[l["n"]] + self.sym(rhs)
             return
+        if op == "=" and l.get("k") == "Ref" and l["n"] in self.ptr:
+            r = strip(rhs)
+            if r.get("k") == "Bin" and r.get("op") == "+" and strip(r["lhs"]).get("k") == "Ref" and strip(r["lhs"])["n"] in self.ptr:
+                self.ptr[l["n"]] = self.ptr[strip(r["lhs"])["n"]] + self.sym(r["rhs"])
+                return
+            raise Unknown("cursor `%s` re-assigned from `%s`" % (l["n"], render(rhs)[:40]))
         if op != "=":
             return
         loopvar = self.loops[-1][0] if self.loops else None
@@ -4029,6 +4320,8 @@ def rule_buffer_layout(ck, W, gfacts):
         ck.incomplete("E12.buffer-layout", "Graph::serialize: " + u)
     for u in r.unknown:
         ck.incomplete("E12.buffer-layout", "Graph(buffer): " + u)
+    if w.unknown or r.unknown:
+        return       # a construct that was not understood may write / read the part the comparison would report as missing
     fw, fr = ser[0], des[0]
     sub = {sp.Symbol("S%d" % k, integer=True, nonnegative=True): e for k, e in w.slots.items()}
     if w.bytes is not None:
@@ -4196,6 +4489,12 @@ def recorded_members(W, fn, sub):
     for n in walk(sub):
         if n.get("k") == "Assign" and is_this_field(n["lhs"]):
             out.add(strip(n["lhs"])["n"])
+        if n.get("k") == "Un" and n.get("op") in ("++", "--") and is_this_field(n["e"]):
+            out.add(strip(n["e"])["n"])          # a counter of the blocks seen records the child as well as a flag
+        if n.get("k") == "OpCall" and n.get("op") in ("=", "+=", "|=") and n.get("a") and is_this_field(n["a"][0]):
+            out.add(strip(n["a"][0])["n"])
+        if n.get("k") == "MCall" and n.get("n") in ("push_back", "emplace_back", "insert", "emplace", "reset", "assign") and is_this_field(n.get("obj")):
+            out.add(strip(n["obj"])["n"])
         if n.get("k") == "Call" and n.get("callee") == "std::make_shared":
             cls = first_targ(n.get("cfull") or "")
             ctors = [g for g in W.fns.values() if g.cls == cls and g.d.get("ctor") and len(g.params) == len(n.get("a", []))]
@@ -4293,7 +4592,8 @@ def rule_children(ck, W, pcs):
                         tested = True
             if not tested:
                 # a flag that markup() sets for this child and that no member function ever reads cannot be demanded anywhere
-                flags = {strip(x["lhs"])["n"] for x in walk(sub) if x.get("k") == "Assign" and is_this_field(x["lhs"])}
+                flags = {strip(x["lhs"])["n"] for x in walk(sub) if x.get("k") == "Assign" and is_this_field(x["lhs"])} | \
+                        {strip(x["e"])["n"] for x in walk(sub) if x.get("k") == "Un" and x.get("op") in ("++", "--") and is_this_field(x["e"])}
                 # member functions that run as part of close()
                 cls_fns, todo = [], [close]
                 while todo:
@@ -4347,14 +4647,45 @@ def ini_predicate(c, line):
         if a and b and a[0] == "front" and b[0] == "back":
             return ("brackets", a[1], b[1])
         return None
+    if c.get("k") == "MCall" and c.get("n") in ("starts_with", "ends_with") and root_var(c.get("obj")) == line and len(c.get("a", [])) == 1:
+        ch = char_value(c["a"][0])
+        if ch is None and str_value(c["a"][0]) is not None and len(str_value(c["a"][0])) == 1:
+            ch = str_value(c["a"][0])
+        if ch is not None:
+            return ("front" if c["n"] == "starts_with" else "back", ch)
     p = cmp_parts(c)
     if p is None:
         return None
     op, l, r = p
+
+    def end_of(x):
+        """'front' / 'back' if x denotes the first / last character of the line in another spelling: line[0], line.at(0),
+        line[line.size()-1], line.at(line.length()-1), *line.begin(), *line.rbegin()"""
+        x = strip(x)
+        idx = None
+        if x.get("k") == "MCall" and x.get("n") in ("at", "operator[]") and root_var(x.get("obj")) == line and len(x.get("a", [])) == 1:
+            idx = strip(x["a"][0])
+        elif x.get("k") == "OpCall" and x.get("op") == "[]" and len(x.get("a", [])) == 2 and root_var(x["a"][0]) == line:
+            idx = strip(x["a"][1])
+        elif x.get("k") == "OpCall" and x.get("op") == "*" and len(x.get("a", [])) == 1:
+            it = strip(x["a"][0])
+            if it.get("k") == "MCall" and root_var(it.get("obj")) == line and not it.get("a"):
+                return {"begin": "front", "cbegin": "front", "rbegin": "back", "crbegin": "back"}.get(it.get("n"))
+        if idx is None:
+            return None
+        if _int_lit(idx) == 0:
+            return "front"
+        if idx.get("k") == "Bin" and idx["op"] == "-" and _int_lit(idx["rhs"]) == 1:
+            sz = strip(idx["lhs"])
+            if sz.get("k") == "MCall" and sz.get("n") in ("size", "length") and root_var(sz.get("obj")) == line:
+                return "back"
+        return None
     for x, y in ((l, r), (r, l)):
         sx = strip(x)
         if sx.get("k") == "MCall" and sx.get("n") in ("front", "back") and root_var(sx.get("obj")) == line and char_value(y) is not None and op == "==":
             return (sx["n"], char_value(y))
+        if op == "==" and char_value(y) is not None and end_of(sx) is not None:
+            return (end_of(sx), char_value(y))
         if op == "==" and sx.get("k") == "Ref" and sx.get("n") == line and str_value(y) is not None:
             return ("equals", str_value(y))
         if op == "!=":
@@ -5230,6 +5561,7 @@ def rule_ini_state(ck, W, rd, chain_nodes):
     while loop is not None and loop.get("k") not in ("While", "For", "Do"):
         loop = par.get(id(loop))
     head = None
+    heads = set()
     if loop is not None and strip(loop.get("c")) is not None:
         cids = {x.get("i") for x in walk(loop["c"]) if x.get("i") is not None}
         for b in e.el:
@@ -5237,6 +5569,12 @@ def rule_ini_state(ck, W, rd, chain_nodes):
                 head = b if head is None else head
         # the first block that evaluates the loop condition: the one all back edges lead to
         heads = {b for b in e.el if e.cfg.blocks[b].get("cond") in cids or any(i in cids for i in e.el[b])}
+    if loop is not None and not heads:
+        # for(;;) / while(true) with the end-of-input test inside the body: the next line is read by the getline call of the loop
+        # body that does not belong to a branch of the classification chain
+        in_branch = {x.get("i") for n_, _ in chain_nodes for x in walk(n_.get("then")) if x.get("i") is not None}
+        gl = {x["i"] for x in walk(loop.get("body")) if x.get("k") == "Call" and re.search(r"getline$", x.get("callee") or "") and x.get("i") is not None and x["i"] not in in_branch}
+        heads = {b for b in e.el if any(i in gl for i in e.el[b])}
     if loop is None or not heads:
         ck.incomplete(rule, "PropertyMap::read: the line loop around the classification chain was not recognised")
         return
